@@ -235,7 +235,7 @@ def run(ctx):
                 res["bad"].append((l if len(l) < 4000 else l[:4000], v))
         return res
 
-    with ThreadPoolExecutor(max_workers=6) as ex:
+    with ThreadPoolExecutor(max_workers=8) as ex:
         results = list(ex.map(work, batches))
     seen = set()
     for r in results:
